@@ -114,30 +114,27 @@ fn decode_len_body() {
 #[cfg(all(not(kani), psc_verif_replay))] #[test] fn replay_decode_len() { vk::load_replay(); decode_len_body() }
 
 // ---- C11: siblings do not accumulate depth: (container, Box<u8>) needs one level whatever the first container holds ------
-fn sibling_depth_body() {
-    let x = vk::any_u8();
-    let lim = vk::any_u32();
-    // empty containers: the count byte is the literal 0
-    let bytes = [0u8, x];
-    let mut i1: &[u8] = &bytes[..];
-    let r1 = <(BTreeMap<u8, u8>, Box<u8>)>::decode_with_depth_limit(lim, &mut i1);
-    assert!(r1.is_ok() == (lim >= 1), "an empty map followed by a box needs exactly one level");
-    let mut i2: &[u8] = &bytes[..];
-    let r2 = <(BTreeSet<u8>, Box<u8>)>::decode_with_depth_limit(lim, &mut i2);
-    assert!(r2.is_ok() == (lim >= 1), "an empty set followed by a box needs exactly one level");
-    let mut i3: &[u8] = &bytes[..];
-    let r3 = <(LinkedList<u8>, Box<u8>)>::decode_with_depth_limit(lim, &mut i3);
-    assert!(r3.is_ok() == (lim >= 1), "an empty list followed by a box needs exactly one level");
-    let mut i4: &[u8] = &bytes[..];
-    let r4 = <(Vec<bool>, Box<u8>)>::decode_with_depth_limit(lim, &mut i4);
-    assert!(r4.is_ok() == (lim >= 1), "an empty vector followed by a box needs exactly one level");
-    let mut i5: &[u8] = &bytes[..];
-    let r5 = <(Box<u8>, Box<u8>)>::decode_with_depth_limit(lim, &mut i5);
-    assert!(r5.is_ok() == (lim >= 1), "two sibling boxes need exactly one level");
-    if let Ok(v) = r5 { assert!(*v.0 == 0 && *v.1 == x); }
+macro_rules! sibling_harness {
+    ($body:ident, $proof:ident, $replay:ident, $t:ty, $msg:expr) => {
+        fn $body() {
+            let x = vk::any_u8();
+            let lim = vk::any_u32();
+            // empty first container: the count byte is the literal 0 (for Box<u8>: the value 0)
+            let bytes = [0u8, x];
+            let mut i1: &[u8] = &bytes[..];
+            let r1 = <($t, Box<u8>)>::decode_with_depth_limit(lim, &mut i1);
+            assert!(r1.is_ok() == (lim >= 1), $msg);
+            if let Ok(v) = r1 { assert!(*v.1 == x && i1.len() == 0); }
+        }
+        #[cfg(kani)] #[kani::proof] #[kani::unwind(5)] fn $proof() { $body() }
+        #[cfg(all(not(kani), psc_verif_replay))] #[test] fn $replay() { vk::load_replay(); $body() }
+    };
 }
-#[cfg(kani)] #[kani::proof] #[kani::unwind(5)] fn sibling_depth() { sibling_depth_body() }
-#[cfg(all(not(kani), psc_verif_replay))] #[test] fn replay_sibling_depth() { vk::load_replay(); sibling_depth_body() }
+sibling_harness!(sibling_depth_map_body, sibling_depth_map, replay_sibling_depth_map, BTreeMap<u8, u8>, "an empty map followed by a box needs exactly one level");
+sibling_harness!(sibling_depth_set_body, sibling_depth_set, replay_sibling_depth_set, BTreeSet<u8>, "an empty set followed by a box needs exactly one level");
+sibling_harness!(sibling_depth_list_body, sibling_depth_list, replay_sibling_depth_list, LinkedList<u8>, "an empty list followed by a box needs exactly one level");
+sibling_harness!(sibling_depth_vec_body, sibling_depth_vec, replay_sibling_depth_vec, Vec<bool>, "an empty vector followed by a box needs exactly one level");
+sibling_harness!(sibling_depth_box_body, sibling_depth_box, replay_sibling_depth_box, Box<u8>, "two sibling boxes need exactly one level");
 
 // ---- C06: a wrapped VecDeque of wide items encodes its logical content ------------------------------------------------------
 fn vecdeque_wide_body() {
